@@ -424,6 +424,26 @@ class _ParamSubst(ast.NodeTransformer):
         return n
 
 
+def _may_fall_through(stmts) -> bool:
+    """can control reach the end of this statement list (conservative: True when in doubt)"""
+    if not stmts:
+        return True
+    last = stmts[-1]
+    if isinstance(last, (ast.Return, ast.Raise)):
+        return False
+    if isinstance(last, ast.If):
+        return _may_fall_through(last.body) or _may_fall_through(last.orelse)
+    if isinstance(last, ast.Try):
+        if last.finalbody and not _may_fall_through(last.finalbody):
+            return False
+        normal = _may_fall_through(last.orelse) if last.orelse else _may_fall_through(last.body)
+        return normal or any(_may_fall_through(h.body) for h in last.handlers)
+    if isinstance(last, ast.While) and isinstance(last.test, ast.Constant) and last.test.value is True \
+            and not any(isinstance(x, ast.Break) for x in ast.walk(last)):
+        return False
+    return True
+
+
 def _known_module_functions():
     import json
     import os
@@ -657,9 +677,18 @@ def inline_fresh_helpers(repo: Repo, max_inlines: int = 200) -> list[str]:
                 direct = new.pop()
                 need_res = False
 
+            # `return helper(...)`: a return of the helper *is* a return of the caller (its own try/finally frames come along)
+            tail_call = shape == "return" and early
+            if tail_call:
+                need_res = False
+                use_block = False
+
             def conv(stmts):
                 out = []
                 for s2 in stmts:
+                    if isinstance(s2, ast.Return) and tail_call:
+                        out.append(s2 if s2.value is not None else ast.copy_location(ast.Return(ast.Constant(None)), s2))
+                        continue
                     if isinstance(s2, ast.Return):
                         if need_res and s2.value is not None:
                             out.append(ast.copy_location(ast.Assign(targets=[ast.Name(id=res, ctx=ast.Store())], value=s2.value), s2))
@@ -681,7 +710,7 @@ def inline_fresh_helpers(repo: Repo, max_inlines: int = 200) -> list[str]:
                     out.append(s2)
                 return out
 
-            falls_through = not isinstance(body[-1], (ast.Return, ast.Raise))
+            falls_through = _may_fall_through(body)
             new = conv(new)
             pre = []
             if own_target is not None:
@@ -702,6 +731,9 @@ def inline_fresh_helpers(repo: Repo, max_inlines: int = 200) -> list[str]:
                     repl = clone(st)
                     repl.value = direct.value if direct is not None else ast.Name(id=res, ctx=ast.Load())
                     new.append(ast.copy_location(repl, st))
+            elif shape == "return" and tail_call:
+                if falls_through:
+                    new.append(ast.copy_location(ast.Return(ast.Constant(None)), st))
             elif shape == "return":
                 new.append(ast.copy_location(ast.Return(direct.value if direct is not None else ast.Name(id=res, ctx=ast.Load())), st))
             elif shape == "test":
